@@ -100,4 +100,16 @@ CHECKS = {
         abnormal_exit_is_violation=True,
         assumptions=HARNESS_TRUST,
     ),
+    "C01": dict(
+        level="exploration",
+        rule=("E2: grammar-generated application fragments (every function code, every table variation x qualifier x boundary counts/ranges, free-format and attribute objects with inconsistent lengths, then truncated/extended/bit-flipped) through ParsedFragment::parse, Display at 4 levels, full iteration and measurement extraction, both zero-length-string options; "
+              "random/damaged link frames and transport segments through the real readers; all under catch_unwind with overflow checks on. "
+              "E1: the same inputs as raw bytes (random chunking) or framed fragments (incl. maximal-size control requests, foreign/broadcast addresses) injected into live outstation and master sessions prepared in 6 states x both link error modes x buffer sizes x 108 decode levels; "
+              "after each input: quiescence (spin), panic hook, task alive; at the end link-status and READ probes in virtual time. distinct = (role, state, input class, error mode) and (function, length bucket) tuples"),
+        runs=[dict(check="c01", timeout_s=1200)],
+        required=["direct_fragments_parsed", "direct_objects_accepted", "direct_link_streams", "probe_link_status_ok", "probe_read_ok", "close_mode_session_ended_on_framing_error"],
+        thorough_scale=25.0,
+        abnormal_exit_is_violation=True,
+        assumptions=HARNESS_TRUST,
+    ),
 }
